@@ -30,20 +30,34 @@ def info_valid(ctx, rule="INFO-VALID"):
                 bins.append((r["op"], S.val(r["ops"][0]), S.val(r["ops"][1]), facts))
     V = "*p2@Int.0"
 
-    def has(op, a, b, **ctxf):
+    def has(alts, a, b_pred, no_range=False, **ctxf):
+        """a comparison `a OP b` with (OP, b) among the equivalent alternatives, in the given context"""
         for (o, x, y, facts) in bins:
-            if (o, x, y) == (op, a, b) and all(facts.get(k) == v for k, v in ctxf.items()):
-                return True
+            if x != a:
+                continue
+            if not any(o == ao and b_pred(y, ac) for (ao, ac) in alts):
+                continue
+            if not all(facts.get(k) == v for k, v in ctxf.items()):
+                continue
+            if no_range and any("value_range" in k for k in facts):
+                continue
+            return True
         return False
+
+    def const_is(y, c):
+        return y in ("c:%d" % c, "(c:%d as i32)" % c)
+
+    def same(y, c):
+        return y == c
     INT = {"discr(*p2)": ("==", 1)}
     checks = [
-        ("range minimum", has("Lt", V, "*p1.value_range@Some.0.0", **INT)),
-        ("range maximum", has("Gt", V, "*p1.value_range@Some.0.1", **INT)),
-        ("Int16 lower bound excludes i16::MIN", has("Gt", V, "(c:-32768 as i32)", **{"discr(*p1.coltype)": ("==", 0)})),
-        ("Int16 upper bound", has("Le", V, "(c:32767 as i32)", **{"discr(*p1.coltype)": ("==", 0)})),
-        ("Int32 excludes i32::MIN", has("Gt", V, "c:-2147483648", **{"discr(*p1.coltype)": ("==", 1)})),
-        ("unlimited width when max_len == 0", has("Eq", "*p1.coltype@Str.0", "c:0", **{"discr(*p2)": ("==", 2)})),
-        ("length counted in characters", any(o == "Le" and "Iterator>::count(core::str::<impl str>::chars(" in x and y == "*p1.coltype@Str.0" for (o, x, y, fa) in bins)),
+        ("range minimum", has([("Lt", "*p1.value_range@Some.0.0"), ("Ge", "*p1.value_range@Some.0.0")], V, same, **INT)),
+        ("range maximum", has([("Gt", "*p1.value_range@Some.0.1"), ("Le", "*p1.value_range@Some.0.1")], V, same, **INT)),
+        ("Int16 lower bound excludes i16::MIN, whatever the declared range", has([("Gt", -32768), ("Ge", -32767)], V, const_is, no_range=True, **{"discr(*p1.coltype)": ("==", 0)})),
+        ("Int16 upper bound, whatever the declared range", has([("Le", 32767), ("Lt", 32768)], V, const_is, no_range=True, **{"discr(*p1.coltype)": ("==", 0)})),
+        ("Int32 excludes i32::MIN, whatever the declared range", has([("Gt", -2147483648), ("Ge", -2147483647)], V, const_is, no_range=True, **{"discr(*p1.coltype)": ("==", 1)})),
+        ("unlimited width when max_len == 0", has([("Eq", 0), ("Ne", 0)], "*p1.coltype@Str.0", const_is, **{"discr(*p2)": ("==", 2)})),
+        ("length counted in characters", any(o in ("Le", "Gt") and "Iterator>::count(core::str::<impl str>::chars(" in x and y == "*p1.coltype@Str.0" for (o, x, y, fa) in bins)),
     ]
     for what, ok in checks:
         ctx.check(ok, rule, what, "", "is_valid_value lost or changed the check `%s`" % what, f.loc(), fn=f.name, key="%s|%s" % (rule, what))
